@@ -272,8 +272,7 @@ Print Assumptions C14_report_all_nonvacuous.
    every answer of [l2gw_policy] comes from a claim covering the pair, and carries that claim's range's policy. *)
 Theorem C14_l2gw_policy_sound :
   forall a s c n p, l2gw_policy a s c = Some (n, p) ->
-  exists cl, In cl (claims (strip a)) /\ covers cl s c /\ c_name cl = n /\ p = policy_of a n (c_idx cl) /\
-             range_l2gw a n (c_idx cl) = true.
+  exists cl, In cl (claims (strip a)) /\ covers cl s c /\ c_name cl = n /\ p = policy_of a n (c_idx cl).
 Proof. exact l2gw_policy_sound. Qed.
 Print Assumptions C14_l2gw_policy_sound.
 
@@ -282,7 +281,7 @@ Print Assumptions C14_l2gw_policy_sound.
 Theorem C14_l2gw_exact_range_policy :
   forall a s c cl, In cl (claims (strip a)) -> c_svlan cl = s -> c_sel cl = SelExact c ->
   exists cl', In cl' (claims (strip a)) /\ c_svlan cl' = s /\ c_sel cl' = SelExact c /\
-              l2gw_policy a s c = if range_l2gw a (c_name cl') (c_idx cl')
+              l2gw_policy a s c = if l2gw_handoff a s c
                                   then Some (c_name cl', policy_of a (c_name cl') (c_idx cl')) else None.
 Proof. exact l2gw_exact_range_policy. Qed.
 Print Assumptions C14_l2gw_exact_range_policy.
@@ -304,7 +303,7 @@ Print Assumptions C14_rescan_agrees.
    the trigger is [l2gw_policy] since.
    group "w", policy "G":  100/any policy "W",  100/20 policy "X" *)
 Definition pol_cfg : aconfig :=
-  [ (([119], [71]), [ (([49;48;48], [97;110;121]), ([87], true)); (([49;48;48], [50;48]), ([88], true)) ]) ]%N.
+  [ (([119], ([71], false)), [ (([49;48;48], [97;110;121]), ([87], true)); (([49;48;48], [50;48]), ([88], true)) ]) ]%N.
 Theorem C14_l2gw_rescan_refuted_before_60d937f :
   exists a s c, validate_strict (strip a) = VOk /\
                 lookup (build (strip a)) s c = Some ([119]%N, 1%nat) /\
@@ -317,10 +316,10 @@ Example C14_l2gw_nonvacuous :
   l2gw_policy pol_cfg 100 7 = Some ([119], [87])%N /\          (* wildcard range's policy *)
   l2gw_policy pol_cfg 100 0 = Some ([119], [87])%N /\
   l2gw_policy pol_cfg 101 20 = None /\
-  l2gw_policy [ (([119], [71]), [ (([49;48;48], []), ([], true)) ]) ]%N 100 5 = Some ([119], [71])%N /\   (* group policy *)
+  l2gw_policy [ (([119], ([71], true)), [ (([49;48;48], []), ([], false)) ]) ]%N 100 5 = Some ([119], [71])%N /\   (* group policy, group-level l2gw *)
   NoDup (map (fun g : agroup => fst (fst g)) pol_cfg) /\
-  find_group pol_cfg [119]%N = Some (hd (([], []), []) pol_cfg) /\
-  (forall j r, (j < 0)%nat -> nth_error (snd (hd (([], []), []) pol_cfg)) j = Some r -> matches_svlan r 100 = false).
+  find_group pol_cfg [119]%N = Some (hd (([], ([], false)), []) pol_cfg) /\
+  (forall j r, (j < 0)%nat -> nth_error (snd (hd (([], ([], false)), []) pol_cfg)) j = Some r -> matches_svlan r 100 = false).
 Proof.
   repeat split; try (vm_compute; reflexivity).
   - repeat constructor; simpl; tauto.
@@ -328,12 +327,12 @@ Proof.
 Qed.
 Print Assumptions C14_l2gw_nonvacuous.
 
-(* ---------------- which pairs are wholesale-switched: access-types are per range ----------------
-   The ipoe component hands a DHCP frame to l2gw, and the l2gw trigger acts on it, iff the range the pair is classified
-   to is an l2gw range. *)
+(* ---------------- which pairs are wholesale-switched ----------------
+   The ipoe component hands a DHCP frame to l2gw, and the l2gw trigger acts on it, iff the pair is classified and the
+   group it is classified to has l2gw among its access-types (group level, or any of its ranges). *)
 Theorem C14_l2gw_handoff_sound :
   forall a s c, l2gw_handoff a s c = true ->
-  exists cl, In cl (claims (strip a)) /\ covers cl s c /\ range_l2gw a (c_name cl) (c_idx cl) = true.
+  exists cl g, In cl (claims (strip a)) /\ covers cl s c /\ find_group a (c_name cl) = Some g /\ group_l2gw g = true.
 Proof. exact l2gw_handoff_sound. Qed.
 Print Assumptions C14_l2gw_handoff_sound.
 
@@ -342,35 +341,42 @@ Theorem C14_l2gw_policy_iff_handoff :
 Proof. exact l2gw_policy_iff_handoff. Qed.
 Print Assumptions C14_l2gw_policy_iff_handoff.
 
-(* testing the matched GROUP for an l2gw range (match.Group.HasAccessType) is the same decision provided the ranges of
-   every group are all of one kind *)
+(* asking the matched group is the same as asking the matched range provided no group declares access-types at group
+   level and the ranges of every group are all of one kind *)
 Theorem C14_l2gw_bygroup_agrees :
   forall a s c, NoDup (map (fun g : agroup => fst (fst g)) a) ->
+  (forall g, In g a -> snd (snd (fst g)) = false) ->
   (forall g r r', In g a -> In r (snd g) -> In r' (snd g) -> snd (snd r) = snd (snd r')) ->
-  l2gw_handoff_bygroup a s c = l2gw_handoff a s c.
+  l2gw_handoff a s c = l2gw_handoff_byrange a s c.
 Proof. exact l2gw_bygroup_agrees. Qed.
 Print Assumptions C14_l2gw_bygroup_agrees.
 
-(* ... and not otherwise (/repo HEAD, variant "defective", finding l2gw-handoff:access-type-by-group): group "m" with a
-   retail range 100 (ipoe) and a wholesale range 200 (l2gw) is accepted by ValidateMatchIndex; pair (100, 5) is classified
-   to the retail range, yet the group test hands it to l2gw and a wholesale circuit is triggered for it *)
+(* OBSERVATION — outside C14's statement; recorded in notes/C14.md for maintainers, not a finding of this property.
+   C14 is about which GROUP a pair is classified to; here the pair is classified to the right group.  What the consumers
+   then do with access-types is their own business: in group "m" with a retail range 100 (ipoe) and a wholesale range
+   200 (l2gw), pair (100, 5) is classified to range #0 of "m", and because the GROUP has an l2gw range it is handed to
+   l2gw although its own range is not an l2gw range. *)
 Definition mixed_cfg : aconfig :=
-  [ (([109], []), [ (([49;48;48], []), ([], false)); (([50;48;48], []), ([], true)) ]) ]%N.
-Theorem C14_l2gw_bygroup_refuted :
-  exists a s c, validate_strict (strip a) = VOk /\
-                lookup (build (strip a)) s c = Some ([109]%N, 0%nat) /\
-                l2gw_handoff a s c = false /\ l2gw_policy a s c = None /\
-                l2gw_handoff_bygroup a s c = true /\ l2gw_policy_bygroup a s c = Some ([109], [])%N.
-Proof. exists mixed_cfg, 100%N, 5%N. vm_compute. repeat split; reflexivity. Qed.
-Print Assumptions C14_l2gw_bygroup_refuted.
+  [ (([109], ([], false)), [ (([49;48;48], []), ([], false)); (([50;48;48], []), ([], true)) ]) ]%N.
+Example C14_l2gw_bygroup_observation :
+  validate_strict (strip mixed_cfg) = VOk /\
+  lookup (build (strip mixed_cfg)) 100 5 = Some ([109]%N, 0%nat) /\
+  l2gw_handoff mixed_cfg 100 5 = true /\ l2gw_policy mixed_cfg 100 5 = Some ([109], [])%N /\
+  l2gw_handoff_byrange mixed_cfg 100 5 = false.
+Proof. vm_compute. repeat split; reflexivity. Qed.
+Print Assumptions C14_l2gw_bygroup_observation.
 
 Example C14_l2gw_handoff_nonvacuous :
-  l2gw_handoff mixed_cfg 200 5 = true /\ l2gw_handoff mixed_cfg 100 5 = false /\ l2gw_handoff mixed_cfg 300 5 = false /\
-  l2gw_handoff_bygroup pol_cfg 100 20 = l2gw_handoff pol_cfg 100 20 /\
+  l2gw_handoff mixed_cfg 200 5 = true /\ l2gw_handoff mixed_cfg 300 5 = false /\
+  l2gw_handoff [ (([109], ([], false)), [ (([49;48;48], []), ([], false)) ]) ]%N 100 5 = false /\
+  l2gw_handoff [ (([109], ([], true)), [ (([49;48;48], []), ([], false)) ]) ]%N 100 5 = true /\
+  l2gw_handoff pol_cfg 100 20 = l2gw_handoff_byrange pol_cfg 100 20 /\
+  (forall g, In g pol_cfg -> snd (snd (fst g)) = false) /\
   (forall g r r', In g pol_cfg -> In r (snd g) -> In r' (snd g) -> snd (snd r) = snd (snd r')).
 Proof.
   repeat split; try (vm_compute; reflexivity).
-  intros g r r' [<-|[]] Hr Hr'. simpl in Hr, Hr'.
-  destruct Hr as [<-|[<-|[]]], Hr' as [<-|[<-|[]]]; reflexivity.
+  - intros g [<-|[]]; reflexivity.
+  - intros g r r' [<-|[]] Hr Hr'. simpl in Hr, Hr'.
+    destruct Hr as [<-|[<-|[]]], Hr' as [<-|[<-|[]]]; reflexivity.
 Qed.
 Print Assumptions C14_l2gw_handoff_nonvacuous.
